@@ -165,12 +165,12 @@ func emittedTypes(w *World) map[int64][]*ssa.Function {
 			}
 			for _, arg := range c.Common().Args {
 				if types.Identical(arg.Type(), a.LogRecordType) {
-					if cv, ok := constOf(arg); ok {
-						if iv, ok := constant.Int64Val(cv); ok {
-							out[iv] = append(out[iv], fn)
-						}
-					} else {
-						fatalf("log record constructor called with a non-constant type at %s (idiom not modelled)", w.InstrPos(c))
+					vals, ok := constArgValues(w, fn, arg, 0)
+					if !ok {
+						fatalf("log record constructor called with a type that is neither a constant nor a parameter bound to constants at every call site, at %s (idiom not modelled)", w.InstrPos(c))
+					}
+					for _, cv := range vals {
+						out[cv.val] = append(out[cv.val], cv.fn)
 					}
 				}
 			}
@@ -767,4 +767,53 @@ func blockReachable(b *ssa.BasicBlock, reach map[ssa.Instruction]bool) bool {
 		}
 	}
 	return false
+}
+
+type constAt struct {
+	val int64
+	fn  *ssa.Function // the function that supplies the constant (the emitter, for helper parameters: the caller)
+}
+
+// constArgValues resolves an integer-typed argument to constants: directly, or — when it is a
+// parameter of fn — through the constants passed at every call site of fn (depth <= 2).
+func constArgValues(w *World, fn *ssa.Function, arg ssa.Value, depth int) ([]constAt, bool) {
+	if cv, ok := constOf(arg); ok {
+		if iv, ok := constant.Int64Val(cv); ok {
+			return []constAt{{iv, fn}}, true
+		}
+		return nil, false
+	}
+	p, isParam := resolveCell(stripConv(arg)).(*ssa.Parameter)
+	if !isParam || depth >= 2 {
+		return nil, false
+	}
+	idx := -1
+	for i, q := range fn.Params {
+		if q == p {
+			idx = i
+		}
+	}
+	if idx < 0 {
+		return nil, false
+	}
+	var out []constAt
+	sites := w.Callers(fn)
+	if len(sites) == 0 {
+		return nil, false
+	}
+	for _, cs := range sites {
+		if w.IsTestFunc(cs.Caller) {
+			continue
+		}
+		args := cs.Instr.Common().Args
+		if cs.Instr.Common().IsInvoke() || idx >= len(args) {
+			return nil, false
+		}
+		vs, ok := constArgValues(w, cs.Caller, args[idx], depth+1)
+		if !ok {
+			return nil, false
+		}
+		out = append(out, vs...)
+	}
+	return out, len(out) > 0
 }
